@@ -338,5 +338,180 @@ def _if_modular(lens):
     return if_modular
 
 
-for _lens in ((1, 2, 3, 4, 5), (6, 7), (8,), (12,), (16,)):
+for _lens in ((1, 2, 3, 4, 5, 6), (7, 8), (9,), (10,), (11,), (12,)):
     _if_modular(_lens)
+
+
+# ------------------------------------------------------------------------- end to end: real Bootloader + real Cloader + ghost target
+
+E2E_CLAUSE = ('flashing writes exactly the image bytes to the flash starting at the start page (or the override page), touching no '
+              'page outside the range the image occupies and none beyond the flash size; an image that does not fit is refused before '
+              'anything is sent; every frame fits the 32-byte radio frame; a flash-write that is not acknowledged aborts the flashing')
+
+
+def le16(lo, hi):
+    assert isinstance(lo, int) and isinstance(hi, int), 'ghost target needs concrete buffer page / offset / count fields'
+    return lo + 256 * hi
+
+
+def ghost_target(c, wire, ps, bp, n):
+    """Ghost model of the bootloader target (the peer): replays everything that was put on the wire, in order.
+
+    load-buffer  [addr, 0x14, page:le16, offset:le16, payload...]  -> BUF[page][offset + j] = payload[j]
+    write-flash  [addr, 0x18, bufpage:le16, flashpage:le16, count:le16] -> FLASH[flashpage + j] = BUF[bufpage + j], j < count
+    (every transmitted write-flash command is taken as executed, acknowledged or not).
+    States, as obligations: every frame is addressed to the target, fits the radio frame and stays inside the buffers; every
+    programmed flash page lies in [first, first + pages of the image) and below fp and receives exactly that image page.
+    Returns the list of programmed page offsets relative to `first`."""
+    buf = [[None] * ps for _ in range(bp)]
+    offs = []
+    npages = (n + ps - 1) // ps
+    k = -1
+    for w in wire:
+        if w[0] != 'tx':
+            continue
+        k += 1
+        c.let('hdr', w[1])
+        c.let('d', w[2])
+        items = c.snapshot('_items', 'tuple(d)')
+        c.ensure('tx%d-addressed-and-fits-radio-frame' % k, 'hdr == 0xFF and 2 <= len(d) <= 31 and d[0] == addr')
+        cmd = items[1] if len(items) > 1 else None
+        if cmd == 0x14 and len(items) >= 6:
+            slot, off, payload = le16(items[2], items[3]), le16(items[4], items[5]), items[6:]
+            inside = slot < bp and off + len(payload) <= ps
+            c.let('_b', inside)
+            c.ensure('tx%d-load-stays-inside-buffer' % k, '_b')
+            if inside:
+                buf[slot][off:off + len(payload)] = payload
+        elif cmd == 0x18 and len(items) == 8:
+            bufpage, count = le16(items[2], items[3]), le16(items[6], items[7])
+            inside = count >= 1 and bufpage + count <= bp
+            c.let('_b', inside)
+            c.ensure('tx%d-write-takes-existing-buffers' % k, '_b')
+            c.snapshot('P0', "unpack('<H', d[4:6])[0]")
+            for j in range(count if inside else 0):
+                P = c.snapshot('P', 'P0 + %d' % j)
+                c.ensure('tx%d-page%d-inside-image-range' % (k, j), 'first <= P and (P - first) * %d < %d' % (ps, n))
+                c.ensure('tx%d-page%d-inside-flash' % (k, j), '0 <= P < fp')
+                content = tuple(buf[bufpage + j])
+                c.let('content', content)
+                # "flash page P receives exactly image page P - first": proved through a witness q0 for P - first.  The witness
+                # is only a hint (found by looking for the image page the buffer content is identical to); the obligation
+                # itself states both that q0 is the page offset and that the content is that image page.
+                q0 = None
+                for q in range(npages):
+                    if content[0] is None or c.snapshot('_m', 'content[0] == image[%d]' % (q * ps)) is not True:
+                        continue
+                    if c.snapshot('_m', 'P - first == %d' % q) is False:
+                        continue
+                    q0 = q
+                    break
+                name = 'tx%d-page%d-receives-exactly-its-image-page' % (k, j)
+                if q0 is not None:
+                    c.let('q0', q0)
+                    c.ensure(name, 'P - first == q0 and all(content[j] == image[q0 * %d + j] for j in range(%d))' % (ps, min(ps, n - q0 * ps)))
+                else:       # no witness: the statement itself (the page offset is known to be in range from the obligations above)
+                    c.ensure(name, ' and '.join('implies(P - first == %d, all(content[j] == image[%d + j] for j in range(%d)))' % (
+                        q, q * ps, min(ps, n - q * ps)) for q in range(npages)))
+                offs.append(c.snapshot('_off', 'P - first'))
+        else:
+            c.ensure('tx%d-is-a-known-command' % k, 'False')
+    return offs
+
+
+def e2e_setup(c, ps, bp, n, receive_script, fixed_target=None):
+    tname = fixed_target or c.choice('target', ['stm32', 'nrf51'])
+    tid = {'stm32': 0xFF, 'nrf51': 0xFE}[tname]
+    c.int('addr', 0, 255), c.let('ps', ps), c.let('bp', bp), c.int('fp', 0, 65535), c.int('sp', 0, 65535)
+    has_override = c.choice('has_override', [False, True])
+    ov = c.int('override', 0, 65535) if has_override else None
+    c.let('first', ov if has_override else c.get('sp'))
+    image = c.bytes('image', n)
+    link, wire = mklink(c, receive_script(c))
+    bl = c.new(BL + ':Bootloader', None)
+    c.let('bl', bl)
+    c.let('link', link)
+    c.snapshot('cl', 'bl._cload')
+    c.snapshot('_', 'setattr(cl, "link", link)')
+    tinfo = target_info(c, tid)
+    c.snapshot('_', 'cl.targets.update({%d: tinfo})' % tid)
+    c.reset_trace()
+    c.call((bl, '_internal_flash'), artifact(c, image, tname), 1, 1, ov)
+    c.snapshot('fits', 'len(image) <= (fp - first) * ps')
+    return wire
+
+
+def ack(c, done=1, err=0):
+    c.snapshot('_ackdata', "pack('<BBBB', addr, 0x18, %d, %d)" % (done, err))
+    return c.new(STK + ':CRTPPacket', 0xFF, c.get('_ackdata'))
+
+
+def _e2e(name, geoms, fixed_target=None, note=''):
+    @contract('C12', 'flash.e2e.' + name, [BL + ':Bootloader._internal_flash', CL + ':Cloader.upload_buffer', CL + ':Cloader.write_flash'],
+              clause=E2E_CLAUSE, max_paths=6000,
+              bounded='(page size, buffer pages, image length) in %s%s; image content, target address, flash pages, start page and '
+                      'override page symbolic (16 bit); every flash-write acknowledged at once' % (
+                          geoms if len(geoms) < 12 else '%d combinations from %s to %s' % (len(geoms), geoms[0], geoms[-1]), note))
+    def k(c):
+        ps, bp, n = c.choice('geom', list(geoms))
+        npages = (n + ps - 1) // ps
+        wire = e2e_setup(c, ps, bp, n, lambda c: [x for _ in range(npages + 1) for x in (None, ack(c))], fixed_target)
+        c.ensure('only-link-calls', 'all(e[0] in ("link.send_packet", "link.receive_packet") for e in trace)')
+        c.ensure('refused-before-anything-is-sent', "implies(not fits, raised == 'Exception' and len(trace) == 0)")
+        c.ensure('image-that-fits-is-flashed-without-error', 'implies(fits, raised is None)')
+        offs = ghost_target(c, wire, ps, bp, n)
+        c.let('offs', tuple(offs))
+        for q in range(npages):
+            c.ensure('image-page%d-programmed' % q, 'implies(raised is None, any(o == %d for o in offs))' % q)
+    return k
+
+
+for _ps in (1, 2, 3):
+    for _bp in (1, 2, 3):
+        _e2e('ps%d.bp%d' % (_ps, _bp), [(_ps, _bp, n) for n in range(1, (2 * _bp + 1) * _ps + 2)])
+
+# pages that need several load-buffer frames (25 payload bytes per frame)
+for _ps in (25, 26, 60):
+    for _bp in (1, 2):
+        _e2e('ps%d.bp%d' % (_ps, _bp), [(_ps, _bp, n) for n in (_ps - 1, _ps + 1, 2 * _bp * _ps, 2 * _bp * _ps + _ps // 2)])
+
+# the page size of the real targets (Crazyflie 2.x: 1024-byte pages; nRF51 1 buffer page, STM32F405 10 buffer pages).  The ten-buffer
+# geometry is run with 128-byte pages (a 12-page image of 1024-byte pages costs minutes of path-condition handling, no new case).
+_e2e('real.nrf51', [(1024, 1, 2 * 1024 + 17)], fixed_target='nrf51')
+_e2e('tenbuffers', [(128, 10, 11 * 128 + 50)], fixed_target='stm32', note=' (12 pages: one full buffer set, one full page, one partial page)')
+
+
+@contract('C12', 'flash.e2e.failing_write', [BL + ':Bootloader._internal_flash', CL + ':Cloader.upload_buffer', CL + ':Cloader.write_flash'],
+          clause=E2E_CLAUSE + ': a flash-write command that is answered negatively, or not answered by the addressed target in 6 '
+                 'transmissions (replies lost or packets of somebody else arriving instead), aborts the flashing with an exception '
+                 'and nothing more is sent',
+          bounded='page size 2, 2 buffer pages, 11-byte image (three flash-write commands); the first, second or third command fails')
+def e2e_failing(c):
+    ps, bp, n = 2, 2, 11
+    which = c.choice('which', [0, 1, 2])
+    how = c.choice('how', ['nack', 'lost', 'stray'])
+
+    def script(c):
+        out = []
+        for _ in range(which):
+            out += [None, ack(c)]
+        if how == 'nack':
+            out += [None, ack(c, 0, 2)]
+        elif how == 'lost':
+            out += [None] * 7
+        else:
+            out += [None] + scripted_replies(c, ['A'] * 6)
+        return out + [None] * 40      # should the flashing go on regardless: every later reply is lost
+    wire = e2e_setup(c, ps, bp, n, script)
+    c.require('fits')
+    c.ensure('aborts-with-exception', "raised == 'Exception'")
+    ghost_target(c, wire, ps, bp, n)
+    txs = [w for w in wire if w[0] == 'tx']
+    cmds = []
+    for t in txs:
+        c.let('d', t[2])
+        cmds.append(c.snapshot('_cmd', 'd[1]'))
+    c.let('cmds', tuple(cmds))
+    c.ensure('failed-command-sent-a-bounded-number-of-times', 'sum(1 for x in cmds if x == 0x18) == %d' % (which + (1 if how == 'nack' else 6)))
+    c.ensure('nothing-sent-after-the-failed-command', 'len(cmds) > 0 and cmds[-1] == 0x18')
+    c.ensure('no-load-after-failure', 'sum(1 for x in cmds if x == 0x14) == %d' % (2 * (which + 1)))
